@@ -444,6 +444,53 @@ def cargo_build_bin(ctx, bin_name, features=("std", "serde", "stable_deref_trait
     return os.path.join(tdir, "release" if release else "debug", bin_name), out
 
 
+class HarnessBuildChanged(Exception):
+    """raised after harness_build_failed() has recorded the (deferred) verdict: the check should stop"""
+
+
+class _RepoOnly:
+    def __init__(self, repo):
+        self.repo = repo
+
+
+def pristine_copy(repo):
+    """export of the repository's HEAD (the last committed tree) under .build, or None if `repo` is not
+    a git repository with a HEAD"""
+    rc, sha = sh(["git", "-C", repo, "rev-parse", "HEAD"])
+    if rc != 0:
+        return None
+    sha = sha.strip()[:12]
+    dst = os.path.join(BUILD, "pristine-" + sha)
+    with Lock("pristine-" + sha):
+        if not os.path.exists(os.path.join(dst, "Cargo.toml")):
+            os.makedirs(dst, exist_ok=True)
+            rc, out = sh("git -C %s archive HEAD | tar -x -C %s" % (repo, dst))
+            if rc != 0:
+                return None
+    return dst
+
+
+def harness_build_failed(ctx, bin_name, out, features=None, release=False, what="the correspondence harness"):
+    """A harness binary does not build against ctx.repo.  If it builds against the repository's HEAD,
+    the working tree changed a public API that the property's correspondence uses: the property is no
+    longer shown to hold (deferred `no-failing-input-found`).  If it does not build against HEAD
+    either, the machinery is broken: raise."""
+    pr = pristine_copy(ctx.repo)
+    if pr is not None:
+        kw = {}
+        if features is not None:
+            kw["features"] = features
+        p2, o2 = cargo_build_bin(_RepoOnly(pr), bin_name, release=release, **kw)
+        if p2 is not None:
+            ctx.oblige("corr:harness-%s-builds-against-working-tree" % bin_name, False, "build error")
+            errs = "\n".join(l for l in out.split("\n") if l.startswith("error") or l.strip().startswith("-->"))[:3000]
+            ctx.defer_nfi("%s (`%s`) no longer builds against the working tree of %s although it builds against its HEAD: a public "
+                          "item the property talks about was removed or its signature / trait bounds changed, so the correspondence "
+                          "cannot be established.\ncompiler errors:\n%s" % (what, bin_name, ctx.repo, errs or out[-2500:]))
+            return
+    raise RuntimeError("harness `%s` does not build against %s (and no buildable HEAD to compare with):\n%s" % (bin_name, ctx.repo, out[-3000:]))
+
+
 def lean_exe(name):
     """Build (if needed) and return the path of a lean_exe driver."""
     ok, out = lake_build([name])
